@@ -322,7 +322,10 @@ func verifC14Gen(r *verifutil.Rand, i int, thorough bool) []string {
 func verifC14Class(op, impl string) string {
 	f := strings.Fields(impl)
 	if strings.HasPrefix(op, "validate") {
-		return "validate/" + strings.Join(f[:min(2, len(f))], "-")[:min(9, len(strings.Join(f[:min(2, len(f))], "-")))]
+		if strings.HasPrefix(impl, "ok") {
+			return "validate/ok"
+		}
+		return "validate/" + strings.Join(f, "-")
 	}
 	switch {
 	case len(f) >= 3 && f[0] == "found" && f[2] == "N":
